@@ -13,6 +13,8 @@
 #include <eventpp/eventqueue.h>
 #include <eventpp/mixins/mixinfilter.h>
 #include <eventpp/utilities/orderedqueuelist.h>
+#include <eventpp/utilities/conditionalfunctor.h>
+#include <eventpp/utilities/argumentadapter.h>
 
 #ifndef VH_THREADING
 #define VH_THREADING eventpp::SingleThreading
@@ -34,6 +36,9 @@
 #endif
 #ifndef VH_CCI
 #define VH_CCI 0
+#endif
+#ifndef VH_MIXINS
+#define VH_MIXINS 1
 #endif
 
 using namespace vh;
@@ -96,6 +101,14 @@ template <typename Item> using OrderedDesc = eventpp::OrderedQueueList<Item, Des
 #ifndef VH_MAP
 #define VH_MAP 0
 #endif
+// VH_MIXINS == 2: a mixin that lets everything pass, listed BEFORE MixinFilter (several mixins: each one's verdict counts)
+static long g_passMixinCalls = 0;
+template <typename Base>
+class PassMixin : public Base {
+public:
+	template <typename ...A>
+	bool mixinBeforeDispatch(A && ...) const { ++g_passMixinCalls; return true; }
+};
 static long g_cciM = 0, g_cciR = 0;
 static long g_policyMoved = 0; // a policy received a moved-from argument
 static bool cciVerdict(const Payload & a) {
@@ -132,7 +145,11 @@ struct Policies {
 #endif
 #endif
 #endif
+#if VH_MIXINS == 2
+	using Mixins = eventpp::MixinList<PassMixin, eventpp::MixinFilter>;
+#else
 	using Mixins = eventpp::MixinList<eventpp::MixinFilter>;
+#endif
 #if VH_MAP == 1
 	template <typename Key, typename T> using Map = std::map<Key, T>;   // ordered map instead of the default hashed one
 #endif
@@ -167,6 +184,35 @@ struct CbFn {
 	~CbFn() { --g_liveCb; }
 	void operator()(LARGS) const;
 };
+
+// a listener registered through eventpp::conditionalFunctor: runs iff value % m == r
+struct CondFn {
+	long m, r;
+#if VH_INCLUDE
+	bool operator()(const KeyT &, const Payload & a) const { return m != 0 && ((a.v % m) + m) % m == r; }
+#else
+	bool operator()(const Payload & a) const { return m != 0 && ((a.v % m) + m) % m == r; }
+#endif
+};
+using CondWrapped = eventpp::ConditionalFunctor<CbFn, CondFn>;
+
+// a listener registered through eventpp::argumentAdapter: its own parameter type is Wide, converted from the payload
+struct Wide {
+	long v; bool valid;
+	explicit Wide(const Payload & p) : v(p.v), valid(p.valid) { p.check(); }
+	std::string show() const { return valid ? std::to_string(v) : std::string("moved"); }
+};
+struct WideFn {
+	CbFn inner;
+#if VH_INCLUDE
+	void operator()(KeyT k, Wide w) const;
+	typedef void Proto(KeyT, Wide);
+#else
+	void operator()(Wide w) const;
+	typedef void Proto(Wide);
+#endif
+};
+using Adapted = eventpp::ArgumentAdapter<WideFn, WideFn::Proto>;
 
 #if VH_PROTO == 0
 #define FARG Payload &
@@ -203,6 +249,15 @@ struct QueueBox {
 		p = n; cur = o;
 	}
 };
+
+// the ledger-counted callback object inside a stored listener, whatever it is wrapped in
+static CbFn * cbOf(Queue::Callback & cb) {
+	if(auto p = cb.target<CbFn>()) return p;
+	if(auto p = cb.target<CondWrapped>()) return &p->func;
+	if(auto p = cb.target<Adapted>()) return &p->func.inner;
+	return nullptr;
+}
+static const CbFn * cbOf(const Queue::Callback & cb) { return cbOf(const_cast<Queue::Callback &>(cb)); }
 
 #define q (*box.p)
 struct World {
@@ -268,12 +323,14 @@ struct World {
 			res("unit");
 			return;
 		}
-		if(op == "listen" || op == "listenfront" || op == "listenbefore") {
+		if(op == "listen" || op == "listenfront" || op == "listenbefore" || op == "listencond" || op == "listenadapt") {
 			long key = c.n(1);
 			long id = nextId++;
 			CbFn fn(c.n(2), id, key, 0);
 			Queue::Handle h;
 			if(op == "listen") h = q.appendListener(mkKey(key), fn);
+			else if(op == "listencond") h = q.appendListener(mkKey(key), eventpp::conditionalFunctor(fn, CondFn{c.n(3), c.n(4)}));
+			else if(op == "listenadapt") h = q.appendListener(mkKey(key), eventpp::argumentAdapter<WideFn::Proto>(WideFn{fn}));
 			else if(op == "listenfront") h = q.prependListener(mkKey(key), fn);
 			else h = q.insertListener(mkKey(key), fn, handleOf(c.n(3)));
 			if((size_t)id >= handles.size()) handles.resize(id + 1);
@@ -327,7 +384,7 @@ struct World {
 				std::vector<Queue::Handle> nh;
 				for(int k = 0; k < nkeys; ++k) {
 					q.forEach(mkKey(k), [&](const Queue::Handle & h, Queue::Callback & cb) {
-						CbFn * fn = cb.target<CbFn>();
+						CbFn * fn = cbOf(cb);
 						fn->hid = nextId++;
 						nh.push_back(h);
 					});
@@ -363,7 +420,7 @@ struct World {
 		for(int k = 0; k < nkeys; ++k) {
 			std::string l = "lst " + std::to_string(k) + " :";
 			q.forEach(mkKey(k), [&l](const Queue::Handle &, const Queue::Callback & cb) {
-				const CbFn * fn = cb.target<CbFn>();
+				const CbFn * fn = cbOf(cb);
 				l += " " + std::to_string(fn->hid) + ":" + std::to_string(fn->cb);
 			});
 			out.push_back(l);
@@ -386,6 +443,15 @@ void CbFn::operator()(LARGS) const {
 	if(argKeyNum(k) != key) g_world->out.push_back("keymismatch listener-of " + std::to_string(key) + " got " + std::to_string(argKeyNum(k)));
 #endif
 	g_world->runBeh("listener", key, hid, cb, a.show());
+}
+
+#if VH_INCLUDE
+void WideFn::operator()(KeyT k, Wide w) const {
+	if(argKeyNum(k) != inner.key) g_world->out.push_back("keymismatch adapted-listener-of " + std::to_string(inner.key) + " got " + std::to_string(argKeyNum(k)));
+#else
+void WideFn::operator()(Wide w) const {
+#endif
+	g_world->runBeh("listener", inner.key, inner.hid, inner.cb, w.show());
 }
 
 #if VH_INCLUDE
